@@ -1,6 +1,7 @@
 package commitlog
 
 import (
+	"io"
 	"os"
 	"sort"
 )
@@ -46,7 +47,12 @@ func findSegmentIndexByTimestamp(segments []*segment, timestamp int64) (int, err
 		// Read the first entry in the segment to determine the base timestamp.
 		var entry entry
 		if e := segments[i].Index.ReadEntryAtLogOffset(&entry, 0); e != nil {
-			err = e
+			// A segment without entries (a freshly rolled active segment or
+			// an empty log) has no base timestamp yet; whatever is written
+			// to it will be newer than the given timestamp.
+			if e != io.EOF {
+				err = e
+			}
 			return true
 		}
 		return entry.Timestamp > timestamp
